@@ -99,6 +99,14 @@ impl Dict {
         }
     }
     pub fn event(&self) -> Value {
+        // Strings of more than 2^24 bytes (the 2^28 framing boundary) cannot go through JSON into
+        // TLC; they are logged truncated to 64 bytes, which is only done when the truncated strings
+        // are still strictly ascending (so that their order still is the order of the real ones).
+        if self.strs.iter().any(|s| s.len() > (1 << 24)) {
+            let t: Vec<Vec<u8>> = self.strs.iter().map(|s| s[..s.len().min(64)].to_vec()).collect();
+            assert!(t.windows(2).all(|w| w[0] < w[1]), "truncated dictionary not strictly ascending");
+            return json!({"ev": "Dict", "strs": t, "truncated": true});
+        }
         json!({"ev": "Dict", "strs": self.strs})
     }
 }
